@@ -32,6 +32,7 @@ type TaskSpec struct {
 	StoreGroup int               `json:"store_group"` // same for the store instance
 	Reps       int               `json:"reps"`
 	Faults     []store.Fault     `json:"faults,omitempty"` // only with a private store
+	Noise      bool              `json:"noise,omitempty"`  // this task runs the noise script (another ParseResult) instead
 }
 
 type Case struct {
@@ -44,6 +45,10 @@ type Case struct {
 	Switches  []Switch    `json:"switches"`
 	PermSeed  uint64      `json:"perm_seed"`
 	UsesOD    bool        `json:"uses_overdraft_fn"`
+	// NoiseProg, when set, is a second script (the main one plus a declaration the main one
+	// lacks) that runs between the repetitions of sequential tasks and as a concurrent task of
+	// its own: what one parsed script leaves behind must not leak into the runs of another.
+	NoiseProg *gen.Program `json:"noise_program,omitempty"`
 }
 
 type Result struct {
@@ -139,11 +144,29 @@ func Execute(c Case, keepTrace bool, ch chooser) (res Result) {
 		return res
 	}
 	res.InDomain = true
+	var pn exec.Parsed
+	noiseText := ""
+	if c.NoiseProg != nil {
+		noiseText = c.NoiseProg.Text()
+		pn = exec.Parse(noiseText)
+		if !pn.InDomain {
+			res.InDomain = false
+			res.Why = "noise script: " + pn.Why
+			return res
+		}
+		tr.Add("noise script %s", noiseText)
+	}
+	textOf := func(t TaskSpec) string {
+		if t.Noise {
+			return noiseText
+		}
+		return text
+	}
 
 	// ---- solo baselines (and the flag oracle F)
 	base := make([]exec.Outcome, len(c.Tasks))
 	for i, t := range c.Tasks {
-		base[i] = c.solo(text, t, flagsMap(t))
+		base[i] = c.solo(textOf(t), t, flagsMap(t))
 		tr.Add("solo task %d: %s", i, base[i].Canon())
 		if len(base[i].Postings) > 0 || base[i].ErrType == "MissingFundsErr" {
 			res.AnyMoney = true
@@ -222,10 +245,19 @@ func Execute(c Case, keepTrace bool, ch chooser) (res Result) {
 		if len(t.Faults) > 0 {
 			stores[-1-i] = st
 		}
+		pr := p.PR
+		if t.Noise {
+			pr = pn.PR
+		}
+		between := c.NoiseProg != nil && !t.Noise && len(t.Faults) == 0
 		s.add(func() {
 			for r := 0; r < t.Reps; r++ {
-				o := exec.Run(ctx, p.PR, vars, st, flags)
+				o := exec.Run(ctx, pr, vars, st, flags)
 				slots[i].out = append(slots[i].out, o)
+				if between {
+					// history: another script, declaring what this one lacks, runs in between
+					exec.Run(ctx, pn.PR, vars, st, flags)
+				}
 			}
 		})
 		res.Runs += t.Reps
@@ -416,6 +448,32 @@ func genCase(r *rand.Rand) (Case, chooser) {
 		}
 		c.Tasks = append(c.Tasks, t)
 	}
+	// a share of cases uses a variable without declaring it (the run must fail the same way
+	// whatever ran before); the complete script becomes the noise script
+	if r.IntN(5) == 0 {
+		used := c.Prog.UsedVars()
+		var cand []int
+		for i, v := range c.Prog.Vars {
+			if v.Fn == "" && used[v.Name] {
+				cand = append(cand, i)
+			}
+		}
+		if len(cand) > 0 {
+			full := c.Prog.Clone()
+			c.NoiseProg = &full
+			i := cand[r.IntN(len(cand))]
+			c.Prog = c.Prog.Clone()
+			c.Prog.Vars = append(c.Prog.Vars[:i], c.Prog.Vars[i+1:]...)
+			if k > 1 {
+				nt := c.Tasks[r.IntN(len(c.Tasks))]
+				nt.Vars = copyVars(nt.Vars)
+				nt.Noise, nt.Faults, nt.Reps = true, nil, 1+r.IntN(2)
+				nt.VarsGroup, nt.FlagsGroup = 100, 100
+				c.Tasks = append(c.Tasks, nt)
+			}
+		}
+	}
+	k = len(c.Tasks)
 	// a share of cases carries ill-formed variable values: which error is reported
 	// must not depend on map iteration order or on the other tasks
 	if r.IntN(7) == 0 {
@@ -467,6 +525,20 @@ func candidates(c Case) []Case {
 		var n Case
 		json.Unmarshal(b, &n)
 		return n
+	}
+	if c.NoiseProg != nil {
+		n := clone()
+		n.NoiseProg = nil
+		var keep []TaskSpec
+		for _, t := range n.Tasks {
+			if !t.Noise {
+				keep = append(keep, t)
+			}
+		}
+		n.Tasks = keep
+		if len(keep) > 0 {
+			out = append(out, n)
+		}
 	}
 	// fewer tasks
 	for i := range c.Tasks {
